@@ -8,6 +8,7 @@ import NR.TimeDep
 import NR.Emit
 import NR.SpecDriver
 import NR.Par
+import NR.Format
 namespace NR.Driver
 open NR
 
@@ -103,9 +104,21 @@ def stepPar (ws : List String) : String :=
     | _, _ => "bad-op"
   | _ => "bad-op"
 
+/-- `fmt route <t0> <travel:arrival:start:finish>…`: the derived route waiting duration. -/
+def stepFmt (ws : List String) : String :=
+  match ws with
+  | "route" :: t0 :: legs =>
+    match parseInt? t0, allSome (legs.map (fun w => match (w.splitOn ":").map parseInt? with
+        | [some a, some b, some c, some d] => some ({ travel := a, arrival := b, start := c, finish := d } : Format.Leg)
+        | _ => none)) with
+    | some t0, some ls => "fmt route " ++ toString (Format.routeWaiting t0 ls)
+    | _, _ => "bad-op"
+  | _ => "bad-op"
+
 def step (st : State) (line : String) : State × String :=
   match words line with
   | "par" :: ws => (st, stepPar ws)
+  | "fmt" :: ws => (st, stepFmt ws)
   | "td" :: ws => let (t, o) := stepTd st.td ws; ({ st with td := t }, o)
   | "emit" :: ws => let (t, o) := stepEmit st.em ws; ({ st with em := t }, o)
   | "inst" :: ws =>
